@@ -10,6 +10,7 @@ import Flowjaxv.Driver.Params
 import Flowjaxv.Driver.ArgCheck
 import Flowjaxv.Driver.Families
 import Flowjaxv.Driver.Bisection
+import Flowjaxv.Driver.Train
 /-!
 Model driver: `lake env lean --run Driver.lean < ops.txt`.  One op per line in, one line out
 (`ERR <msg>` when the model rejects the op).
@@ -53,6 +54,13 @@ def dispatch (line : String) : String :=
       | "adapt" => adapt args
       | "ar" => ar args
       | "archeck" => archeck args
+      | "cfruit" => cfruit args
+      | "fit" => fit args
+      | "vi" => vi args
+      | "vipost" => vipost args
+      | "nval" => nval args
+      | "addbatch" => addbatch args
+      | "fitdata" => fitdata args
       | "ctor" => ctor args
       | "permute" => permute args
       | "permvalid" => permvalid args
